@@ -236,4 +236,19 @@ theorem placed_ne_fly (env : Env) (x : AItem Cb) (outs : List Out) (h : NoFlyPla
   subst hx
   exact h o ho c hc hit
 
+/-- `cur_bucket` after a history: the start position plus the number of advances, modulo the ring size —
+for histories of any length (the `uint8_t` never sees a value above 24) -/
+theorem run_cur (env : Env) (henv : EnvOk env) : ∀ (ops : List Op) (s : Sched), Inv env s →
+    (∀ op ∈ ops, OpOk env op) →
+    ∃ s' outs, run env s ops = .ok (s', outs) ∧ Inv env s' ∧
+      s'.cur = (s.cur + ops.countP isAdvOp) % 25
+  | [], s, hinv, _ => ⟨s, [], rfl, hinv, by have := hinv.1.2.1; simp; omega⟩
+  | op :: ops, s, hinv, hops => by
+    obtain ⟨s1, o, h1, hi1, _, _⟩ := step_spec env s op hinv henv (hops op (List.mem_cons_self ..))
+    have hc1 := step_cur env s op hinv henv (hops op (List.mem_cons_self ..)) s1 o h1
+    obtain ⟨s', outs, h2, hi2, hc2⟩ := run_cur env henv ops s1 hi1 (fun y hy => hops y (List.mem_cons_of_mem _ hy))
+    refine ⟨s', o :: outs, by simp only [run, bind, Except.bind, h1, h2]; rfl, hi2, ?_⟩
+    rw [hc2, hc1, List.countP_cons]
+    cases op <;> simp [isAdvOp] <;> omega
+
 end OsmoVerif.TdmaSched
